@@ -1041,6 +1041,8 @@ func TestC15_MatchersTargeted(t *testing.T) {
 
 type c16Case struct {
 	Merged  bool          `json:"merged_any"` // all masked paths go into ONE Any matcher with ErrOnMissingPath(false)
+	// TwoDocs (yaml): the input is a stream holding the document twice
+	TwoDocs bool `json:"two_document_stream,omitempty"`
 	// MergedPaths, if set: the path list of that one matcher (the masked paths interleaved with paths that do not exist)
 	MergedPaths []string `json:"merged_paths,omitempty"`
 	Kind    string        `json:"kind"`       // json | sjson | yaml
@@ -1073,6 +1075,9 @@ func otherScalar(t *rapid.T, n JNode, yamlDoc bool) JNode {
 	case "num":
 		if yamlDoc {
 			return JNode{K: "num", Num: strconv.Itoa(rapid.IntRange(1000, 2000).Draw(t, "ynum2"))}
+		}
+		if nb, ok := numNeighbour(n.Num); ok && rapid.Bool().Draw(t, "neighbour") {
+			return JNode{K: "num", Num: nb}
 		}
 		alt := rapid.SampledFrom([]string{"7", "-3", "2.5", "1e3", "1000000"}).Draw(t, "num2")
 		if alt == n.Num {
@@ -1197,6 +1202,7 @@ func genC16(t *rapid.T) c16Case {
 			}
 		}
 	}
+	c.TwoDocs = yamlDoc && c.D.K == "obj" && rapid.IntRange(0, 3).Draw(t, "twodocs") == 0
 	c.DPrime = c.D
 	for _, st := range c.Steps {
 		node, _ := c.DPrime.at(st.Comps)
@@ -1232,6 +1238,11 @@ func genC16(t *rapid.T) c16Case {
 
 func (c c16Case) text(n JNode) string {
 	if c.Kind == "yaml" {
+		if c.TwoDocs {
+			// a stream of two documents of the same shape (rendered manifests): the matchers apply to every document
+			y := renderYAML(n)
+			return y + "---\n" + y
+		}
 		return renderYAML(n)
 	}
 	return n.Compact()
@@ -1412,6 +1423,9 @@ func classifyC16(c c16Case) ([]string, bool) {
 	}
 	if c.Merged {
 		cls = append(cls, "merged_any")
+	}
+	if c.TwoDocs {
+		cls = append(cls, "two_document_yaml_stream")
 	}
 	if len(c.MergedPaths) > len(c.Steps) {
 		cls = append(cls, "merged_any_with_missing_sibling_paths")
